@@ -537,6 +537,13 @@ func TestCheck(t *testing.T) {
 		cases = append(cases, waitCase{local: true, hop: true, age: true, residence: res})
 		cases = append(cases, waitCase{local: true, zero: true, residence: res})
 	}
+	// received bundles with drawn block mixes (unordered block numbers, several unknown blocks, arbitrary CRC types)
+	for _, a := range algos {
+		a := a
+		r.Group("mixed-"+a, r.Pick(120, 1500), func(i int, rng *report.Rand) {
+			mixed(r, a, i, rng)
+		})
+	}
 	for _, a := range algos {
 		a := a
 		r.Group("wait-"+a, len(cases), func(i int, rng *report.Rand) {
